@@ -139,6 +139,13 @@ def env_canon(env, T):
     return ",".join(out)
 
 
+def env_canon_all(env, T):
+    """like env_canon, but a value this canon does not know (None — the result of seed(n) —, a float, a random variable) is still
+    a BINDING: `name=<kind>`"""
+    b_ = core.env_bindings(env)
+    return ",".join("%s=%s" % (k, canon_val(b_[k], T) if canon_val(b_[k], T) is not None else "<%s>" % type(b_[k]).__name__) for k in sorted(b_))
+
+
 def run_real(R, hist_inputs, envs):
     """hist_inputs: list of (sid, text). Returns list of result strings."""
     res = []
@@ -325,13 +332,37 @@ def _check_main(ctx):
         setup = "; ".join("%s = %d" % (nm, rng.randrange(-5, 50)) for nm in rng.sample(NAMES, rng.randrange(0, 6)))
         if setup:
             R.value(setup, env=env)
-        before = env_canon(env, T)
+        # values of every kind a session can hold — also None (what seed(n) returns): a binding is a binding
+        for nm in rng.sample(["x", "y", "z", "true", "abs"], rng.randrange(0, 3)):      # the generator names of the expressions below
+            vt = rng.choice(["seed(1)", '"txt"', "{1, 2}", "3 m", "[1, 2]", "#2020-01-01#", "Binomial(3, 0.5)", "5!", "1/3", "2.5", "seed(7)"])
+            R.execute("%s = %s" % (nm, vt), env=env)
+            setup += "; %s = %s" % (nm, vt)
+        before = env_canon_all(env, T)
         ex = rng.choice(exprs)
         R.execute(ex, env=env)
         ctx.count("expr-no-write:" + setup + " ;; " + ex, bucket="expression statements")
-        if env_canon(env, T) != before:
+        if env_canon_all(env, T) != before:
             ctx.violation("sess-write-by-expression:" + ex, (setup + "; " if setup else "") + ex, "bindings unchanged: " + before,
-                          env_canon(env, T), "execute() on one EvalEnvironment")
+                          env_canon_all(env, T), "execute() on one EvalEnvironment")
+    # … whatever KIND of value the shadowed name holds: every kind a session can hold (None — what seed(n) returns — included)
+    # under each generator name, then the comprehension, then the table and a read of the name
+    for nm, ex in [("x", "{x*2 : x in 1..3}"), ("x", "{x : x in 1..3, x/0}"), ("true", "{true : true in 1..2}"), ("y", "{{x : x in 1..y} : y in 1..3}"),
+                   ("z", "sum({z : z in {1,2}})"), ("pi", "{pi : pi in {1}}"), ("b", "{a+b : a in {1,2}, b in {10,20}}")]:
+        for vt in ["seed(1)", '"txt"', "{1, 2}", "3 m", "[1, 2]", "#2020-01-01#", "Binomial(3, 0.5)", "5!", "1/3", "2.5", "0", "(X > 1)"]:
+            env = R.new_env()
+            R.execute("X = Binomial(3, 0.5)", env=env)
+            r0 = R.execute("%s = %s" % (nm, vt), env=env)
+            if r0["status"] != 0 or r0["escaped"]:
+                continue
+            before = env_canon_all(env, T)
+            r1 = R.execute(nm, env=env)
+            R.execute(ex, env=env)
+            r2 = R.execute(nm, env=env)
+            ctx.count("expr-no-write-kinds:%s=%s;;%s" % (nm, vt, ex), bucket="expression statements over every kind of value")
+            after = env_canon_all(env, T)
+            if after != before or (r1["status"], r1["out"]) != (r2["status"], r2["out"]):
+                ctx.violation("sess-write-by-expression:%s = %s; %s" % (nm, vt, ex), "%s = %s; %s; %s" % (nm, vt, ex, nm), "bindings unchanged: %s; `%s` reads as before (status %s)" % (before, nm, r1["status"]),
+                              "%s; `%s` status %s %s" % (after, nm, r2["status"], r2["err"].strip()[:80]), "execute() of the three inputs on one EvalEnvironment")
     if dict(KE.CONSTANTS) != consts0 or list(KF.FUNCTIONS.keys()) != fkeys0 or {k: len(v) for k, v in KF.FUNCTIONS.items()} != flens0 \
             or (sorted(KU.NAME_TO_UNIT), sorted(KU.SYMBOL_TO_UNIT), len(KU.UNITS)) != units0:
         ctx.violation("sess-global-mutation", "the histories above", "CONSTANTS / FUNCTIONS / unit tables unchanged", "changed",
